@@ -196,6 +196,16 @@ def lookup_resp(rng):
     return hdr(0, 0x8400, 0, len(recs)) + b"".join(recs)
 
 
+def lookup_deadline_resp(rng):
+    """new records for the lookup in progress (SRV with a fresh port, TXT with fresh text; no address, so the lookup keeps waiting): the stream
+    does not deliver it at once but **at the wait deadline of the lookup** (kind `lookupdl`, see `w_wait` in `simulate`)"""
+    inst = wname([b"x"] + labels_of(TB))
+    host = wname([b"hx", b"local"])
+    recs = [rr(inst, 33, 0x8001, 120, struct.pack(">HHH", 0, 0, rng.randrange(1024, 65536)) + host),
+            rr(inst, 16, 0x8001, 4500, bytes([4]) + b"k=" + bytes([97 + rng.randrange(26), 97 + rng.randrange(26)]))]
+    return hdr(0, 0x8400, 0, len(recs)) + b"".join(recs)
+
+
 def lookup_trunc(rng):
     """a valid response for the lookup in progress (SRV x.TB -> hx.local., TXT, and a final A or AAAA record of hx.local.), cut
     at a random offset inside the rdata of the LAST record: the decoder slices silently, so the record survives with an
@@ -299,7 +309,7 @@ def addr_swap(rng):
 REP_GAPS = [300, 900, 900, 999, 1000, 1001]
 REP_SRCS = [("10.9.9.9", 40000), (PEER, 40000), ("10.7.7.7", 40001), (PEER, 53), ("10.9.9.9", 40002)]
 
-KINDS = ["cycle", "cycle", "cycle", "burst", "burst", "canrep", "canrep", "lookuptrunc", "lookuptrunc", "rand", "c02valid", "c02mut", "c02out", "c02outmut", "graph", "chain", "live", "livemut", "livemut", "query", "query", "querymut",
+KINDS = ["lookupdl", "lookupdl", "cycle", "cycle", "cycle", "burst", "burst", "canrep", "canrep", "lookuptrunc", "lookuptrunc", "rand", "c02valid", "c02mut", "c02out", "c02outmut", "graph", "chain", "live", "livemut", "livemut", "query", "query", "querymut",
          "resp", "hostile", "hostile", "lookup", "d8", "d8b", "oversize", "repeat"]
 
 
@@ -312,7 +322,7 @@ def gen_item(rng, live, names, last, k=None):
     from . import c02
 
     if k is None:
-        k = rng.choice([x for x in KINDS if x not in ("cycle", "burst", "bigq", "flood", "tctrain", "addrswap")])
+        k = rng.choice([x for x in KINDS if x not in ("cycle", "burst", "bigq", "flood", "tctrain", "addrswap", "lookupdl")])
     if k in ("live", "livemut") and not live:
         k = "c02mut"
     if k == "repeat" and last is None:
@@ -472,8 +482,29 @@ def simulate(case):
             return r
         return f
 
+    # datagrams armed for "the next wait deadline of a waiting coroutine" (kind `lookupdl`; seeded defect C15-w4-seed3): a waiter's future
+    # that timed out (or was cancelled) stays in its set until the waiting task runs again; a response that wakes the same set in between
+    # meets a future that is done
+    dl = {"pending": [], "fire": None}
+
+    def w_wait(orig):
+        async def f(loop, future_set, timeout):
+            if dl["pending"] and dl["fire"] is not None:
+                from zeroconf._utils.time import millis_to_seconds
+                idx, data, src = dl["pending"].pop(0)
+                # the same deadline as the waiter's own timeout handle (`loop.call_later(millis_to_seconds(timeout), ...)`), scheduled BEFORE it:
+                # at the deadline this callback runs first and queues the delivery with `call_soon`; the waiter's handle then marks the future
+                # done; in the next loop iteration the datagram is handled before the waiting task is, i.e. while the done future is still in the set
+                loop.call_later(millis_to_seconds(timeout), lambda: loop.call_soon(dl["fire"], idx, data, src))
+            return await orig(loop, future_set, timeout)
+        return f
+
     async def main(sim):
+        import zeroconf._core as corem
         import zeroconf._protocol.outgoing as outm
+        import zeroconf._services.info as infm
+        patch(infm, "wait_for_future_set_or_timeout", w_wait)
+        patch(corem, "wait_for_future_set_or_timeout", w_wait)
         patch(outm.DNSOutgoing, "packets", w_packets)
         patch(rmm.RecordManager, "async_updates_from_response", w_resp)
         patch(qhm.QueryHandler, "handle_assembled_query", w_haq)
@@ -539,6 +570,14 @@ def simulate(case):
                 raise cur["exc"]
 
         a.deliver = host_deliver
+
+        def dl_fire(idx, data, src):
+            r = deliver(data, src)
+            obs["kinds"]["lookupdl-fired"] = obs["kinds"].get("lookupdl-fired", 0) + 1
+            if r is not None:
+                obs["escapes"].append({"index": idx, "exc": r, "kind": "lookupdl", "len": len(data)})
+
+        dl["fire"] = dl_fire
         infos = [ServiceInfo(TA, "s%d.%s" % (i + 1, TA), 80 + i, addresses=[socket.inet_aton(SELF_IP)], server="ha.local.",
                              properties={"k": "v%d" % i}) for i in range(case["n_services"])]
         for info in infos:
@@ -629,6 +668,8 @@ def simulate(case):
                 elif kind0 == "tctrain":
                     tsrc = (rng.choice([PEER, "10.9.9.9"]), rng.choice([5353, 5353, 40000]))
                     subs = [(g, "tctrain", d, tsrc) for g, d in tc_train(rng, names)]
+                elif kind0 == "lookupdl":
+                    subs = [(rng.choice(GAPS), "lookupdl", lookup_deadline_resp(rng), (PEER, 5353))]
                 elif kind0 == "addrswap":
                     subs = [(g, "addrswap", d, (PEER, 5353)) for g, d in addr_swap(rng)]
                 else:
@@ -645,6 +686,10 @@ def simulate(case):
                     await sim.sleep_ms(gap)
                 obs["items"].append({"gap": gap, "data": data.hex(), "src": list(src), "kind": kind})
                 obs["kinds"][kind] = obs["kinds"].get(kind, 0) + 1
+                if kind == "lookupdl":
+                    # not delivered now: armed for the next wait deadline (a replay arms it at the same point of the stream)
+                    dl["pending"].append((len(obs["items"]) - 1, data, tuple(src)))
+                    continue
                 last = data
                 n_log = len(sim.net.log)
                 r = deliver(data, src)
